@@ -289,8 +289,70 @@ type observation struct {
 	Status int
 	Eff    string
 	Diff   []string
+	Kinds  map[string]string // diff path -> directory-created | file-created | existing-entry-content-changed | existing-entry-deleted
 	Ops    []s3env.Op
 	Body   string
+}
+
+// effectKinds names what happened to each path of a namespace diff.
+func effectKinds(diff []string, after map[string]s3env.Info) map[string]string {
+	out := map[string]string{}
+	for _, d := range diff {
+		p := d[1:]
+		switch d[0] {
+		case '+':
+			if after[p].Dir {
+				out[p] = "directory-created"
+			} else {
+				out[p] = "file-created"
+			}
+		case '~':
+			out[p] = "existing-entry-content-changed"
+		case '-':
+			out[p] = "existing-entry-deleted"
+		}
+	}
+	return out
+}
+
+// effectOf summarises the kinds of the given diff paths: a created directory that is
+// only the parent of something else created is not named, one deletion stands for a
+// whole removed subtree.
+func effectOf(paths []string, kinds map[string]string) string {
+	set := map[string]bool{}
+	for _, p := range paths {
+		k := kinds[p]
+		if k == "directory-created" {
+			parent := false
+			for _, q := range paths {
+				if strings.HasPrefix(q, p+"/") {
+					parent = true
+				}
+			}
+			if parent {
+				continue
+			}
+		}
+		set[k] = true
+	}
+	var ks []string
+	for k := range set {
+		ks = append(ks, k)
+	}
+	sort.Strings(ks)
+	return strings.Join(ks, "+")
+}
+
+// concreteRoute: the operation, with PutObject split by whether the key ends in
+// "/" (the handler then creates a directory over gRPC instead of uploading).
+func concreteRoute(op string, c Case) string {
+	if op == "PutObject" && c.Field == "key" {
+		j := strings.ReplaceAll(strings.Join(c.Segs, "/"), "%2F", "/")
+		if strings.HasSuffix(j, "/") {
+			return "PutObject-dir"
+		}
+	}
+	return op
 }
 
 func (e *env) exec(c Case) (observation, []verdict) {
@@ -336,7 +398,7 @@ func (e *env) exec(c Case) (observation, []verdict) {
 			e.dirty = true // may have left invisible store records behind
 		}
 	}
-	o := observation{Status: status, Diff: diff, Ops: ops, Body: string(body)}
+	o := observation{Status: status, Diff: diff, Kinds: effectKinds(diff, after), Ops: ops, Body: string(body)}
 	if eff == nil {
 		o.Eff = "none"
 		if len(ops) > 0 || len(diff) > 0 {
@@ -397,6 +459,11 @@ func judge(eff *s3routes.Route, c Case, o observation) *verdict {
 	mk := func(effect, format string, a ...interface{}) *verdict {
 		return &verdict{effect + tag, fmt.Sprintf("%s %s: ", op, mc.JS(c.Segs)) + fmt.Sprintf(format, a...)}
 	}
+	// the three write classes name the concrete route and what happened to the entries
+	wtag := fmt.Sprintf(":route=%s:field=%s:mech=%s", concreteRoute(op, c), c.Field, mechanism(c.Segs))
+	mkw := func(effect string, paths []string, format string, a ...interface{}) *verdict {
+		return &verdict{effect + wtag + ":effect=" + effectOf(paths, o.Kinds), fmt.Sprintf("%s %s: ", op, mc.JS(c.Segs)) + fmt.Sprintf(format, a...)}
+	}
 	// legitimate copy-source region: the bucket the source names
 	srcDir := ""
 	if eff.Op.SrcRead {
@@ -409,27 +476,30 @@ func judge(eff *s3routes.Route, c Case, o observation) *verdict {
 		}
 	}
 	// (1) namespace diff
-	var bucketDir, uploadArea *verdict
+	var outside, bucketDir, uploadArea []string
 	for _, d := range o.Diff {
 		p := d[1:]
 		switch {
 		case p == bdir:
-			if family(op) != "bucket" && bucketDir == nil {
-				bucketDir = mk("bucket-dir-changed", "changed the bucket directory itself (diff %v)", o.Diff)
+			if family(op) != "bucket" {
+				bucketDir = append(bucketDir, p)
 			}
 		case under(p, bdir):
-			if (p == bdir+"/.uploads" || under(p, bdir+"/.uploads")) && family(op) != "multipart" && family(op) != "bucket" && uploadArea == nil {
-				uploadArea = mk("upload-area-modified", "an ordinary-object route changed the multipart upload area: %s", d)
+			if (p == bdir+"/.uploads" || under(p, bdir+"/.uploads")) && family(op) != "multipart" && family(op) != "bucket" {
+				uploadArea = append(uploadArea, p)
 			}
 		default:
-			return mk("escape-write", "changed %s, outside %s/ (diff %v)", d, bdir, o.Diff)
+			outside = append(outside, p)
 		}
 	}
-	if bucketDir != nil {
-		return bucketDir
+	if len(outside) > 0 {
+		return mkw("escape-write", outside, "changed entries outside %s/: diff %v", bdir, o.Diff)
 	}
-	if uploadArea != nil {
-		return uploadArea
+	if len(bucketDir) > 0 {
+		return mkw("bucket-dir-changed", bucketDir, "changed the bucket directory itself (diff %v)", o.Diff)
+	}
+	if len(uploadArea) > 0 {
+		return mkw("upload-area-modified", uploadArea, "an ordinary-object route changed the multipart upload area: diff %v", o.Diff)
 	}
 	// (2) response content
 	for _, s := range outsideSentinels {
